@@ -936,7 +936,7 @@ def e2e_witness(model):
                 b.map(_pair_neg).starmap(f_pair), b.map(_rep).flatten(), b.distinct(), b.mean(), b.var(), b.std(), b.var(ddof=1),
                 b.accumulate(add, initial=1), db.zip(b, b.map(neg)), db.concat([b, b.map(neg)]),
                 b.product(db.from_sequence([1, 2], npartitions=2)), b.join([0, 1, 3], key_mod2),
-                b.groupby(key_mod2, shuffle="tasks", max_branch=2), b.groupby(key_mod2, shuffle="disk", npartitions=2, blocksize=16),
+                b.groupby(key_mod2, shuffle="tasks", max_branch=2), b.groupby(key_mod2, shuffle="disk", npartitions=2, blocksize=2),
                 b.groupby(key_mod2, shuffle="tasks"))
         m = sum(ref) / len(ref)
         pv = sum((x - m) ** 2 for x in ref) / len(ref)
@@ -986,6 +986,30 @@ def e2e_witness(model):
 # ---------------------------------------------------------------------------
 
 
+def ob_repartition_counts(nmax):
+    """repartition(npartitions=m) of a bag with n one-element partitions for every pair (n, m): the boundary arithmetic int(i * (n / m)) is float
+    code, so n and m are solver-enumerated (concretised); exactly m partitions, same elements in the same order"""
+    import operator
+
+    def setup(e):
+        n = e.int("n", 1, nmax)
+        m = e.int("m", 1, nmax + 2)
+        return n, m
+
+    def run(e, n, m):
+        n, m = operator.index(n), operator.index(m)
+        b = db.from_sequence(list(range(100, 100 + 3 * n)), npartitions=n)
+        if b.npartitions != n:
+            return "skip"
+        r = b.repartition(npartitions=m)
+        e.check(r.npartitions == m, f"repartition(npartitions={m}) of {n} partitions has {r.npartitions} partitions")
+        got = r.compute(scheduler="sync")
+        e.check(list(got) == list(range(100, 100 + 3 * n)), f"repartition(npartitions={m}) of {n} partitions lost, duplicated or reordered elements: {len(got)} of {3 * n}")
+        return len(got)
+
+    return Obligation(f"repartition_counts[n<={nmax}]", setup, run)
+
+
 def obligations(tier):
     if tier == "quick":
         P, N = 3, 4          # partitions, elements
@@ -1004,5 +1028,5 @@ def obligations(tier):
         ob_flatten(P, min(N, 4)), ob_fold(RP, N, SE), ob_fold_initial(RP, N, SE),
         ob_maxmin(FP, FN, ses), ob_anyall(FP, FN, ses), ob_accumulate(P, N), ob_take(P, N), ob_topk(FP, FN, ses), ob_repartition(P, N),
         ob_zip_concat(P, N), ob_distinct(FP, FN, 0, 2, ses), ob_distinct_key(FP, FN), ob_foldby(FP, FN, ses), ob_groupby(FP, FN),
-        ob_join(FP, FN), ob_stats(*st),
+        ob_join(FP, FN), ob_stats(*st), ob_repartition_counts(16 if tier == "quick" else 40),
     ]
